@@ -2,11 +2,12 @@
    followed by Print Assumptions. *)
 From Coq Require Import List ZArith String Ascii.
 Import ListNotations.
-From Dagrt Require Import GenC19 Print Parse PrintParseRefute PrintParseProofs LexProofs.
+From Dagrt Require Import GenC19 Print Parse PrintParseRefute PrintParseProofs LexProofs RoundTripString.
 
 (* The property at full strength (on the text, for every structurally sane expression with
    lexable names).  It is FALSE of the unchanged code: C19_roundtrip_refuted and the three
-   further refutations below; the proved theorem is C19_roundtrip_partial. *)
+   further refutations below; the proved theorem C19_roundtrip_partial is this statement with
+   the additional hypothesis `no_defect e = true` (none of the four refuted shapes). *)
 Definition C19_full_statement : Prop :=
   forall e, wf_expr e = true -> wf_names e = true ->
   exists e', parse_string (print_string e) = Ok e'
@@ -20,7 +21,7 @@ Theorem C19_roundtrip_refuted : ~ C19_full_statement.
 Proof. exact refuted_pow. Qed.
 Print Assumptions C19_roundtrip_refuted.
 
-(* a < (b == b) prints a < b == b = (a < b) == b *)
+(* a < (bb == bb) prints a < bb == bb = (a < bb) == bb *)
 Theorem C19_refuted_comparison_right : ~ C19_full_statement.
 Proof. exact refuted_cmp. Qed.
 Print Assumptions C19_refuted_comparison_right.
@@ -35,17 +36,32 @@ Theorem C19_refuted_bool_operand : ~ C19_full_statement.
 Proof. exact refuted_bool. Qed.
 Print Assumptions C19_refuted_bool_operand.
 
-(* For every printable expression (structurally sane and none of the four shapes above), the
-   parser -- with the fuel dagrt.expression.parse's model gives it, so in particular without
-   running out of fuel -- reads the printed tokens (blanks included) back as an expression that
-   prints identically at every precedence and with or without blanks, lists the same variables
-   in the same order and has the same value under every valuation and every interpretation of
-   user functions, subscripting, true division and negative powers.
-   Missing w.r.t. the full statement: it is about the TOKEN list `print [TSp] PR_NONE e`, whose
-   text is print_string e; that the lexer returns exactly these tokens for that text
-   (for expressions with wf_names) is checked by computation on every case of every run and
-   proved only for back-tick quoted names (C19_backticks). *)
+(* On the text.  For every structurally sane expression with lexable names and none of the
+   four shapes above: the lexer cuts str(e) into the printed tokens, the parser -- with the
+   fuel the model gives it, so in particular without running out of fuel -- reads them back as
+   an expression that prints identically, lists the same variables in the same order and has
+   the same value under every valuation and every interpretation of user functions,
+   subscripting, true division and negative powers. *)
 Theorem C19_roundtrip_partial :
+  forall e, wf_expr e = true -> wf_names e = true -> no_defect e = true ->
+  exists e', parse_string (print_string e) = Ok e'
+             /\ print_string e' = print_string e
+             /\ vars e' = vars e
+             /\ forall rho Ffun Fsub Fquot Fnegpow,
+                  eval rho Ffun Fsub Fquot Fnegpow e' = eval rho Ffun Fsub Fquot Fnegpow e.
+Proof. exact roundtrip_string_partial. Qed.
+Print Assumptions C19_roundtrip_partial.
+
+(* the expression returned is the parser's normal form of e (binary nodes, + and or nested to the
+   left, * to the right) *)
+Theorem C19_roundtrip_normal_form :
+  forall e, printable e = true -> wf_names e = true -> parse_string (print_string e) = Ok (norm e).
+Proof. exact roundtrip_string. Qed.
+Print Assumptions C19_roundtrip_normal_form.
+
+(* the same on the token list (any names): printing is invariant at every precedence, with or
+   without blanks *)
+Theorem C19_roundtrip_tokens :
   forall e, printable e = true ->
   exists e', parse_tokens (print [TSp] PR_NONE e) = Ok e'
              /\ (forall sp q, print sp q e' = print sp q e)
@@ -53,18 +69,13 @@ Theorem C19_roundtrip_partial :
              /\ forall rho Ffun Fsub Fquot Fnegpow,
                   eval rho Ffun Fsub Fquot Fnegpow e' = eval rho Ffun Fsub Fquot Fnegpow e.
 Proof. exact roundtrip_partial. Qed.
-Print Assumptions C19_roundtrip_partial.
-
-(* the expression returned is the parser's normal form of e, and it is in normal form *)
-Theorem C19_roundtrip_normal_form :
-  forall e, printable e = true -> parse_tokens (print [TSp] PR_NONE e) = Ok (norm e).
-Proof. exact roundtrip_tokens. Qed.
-Print Assumptions C19_roundtrip_normal_form.
+Print Assumptions C19_roundtrip_tokens.
 
 (* "`n`" denotes the variable n, for every n over the alphabet of the back-tick regexp
    (on the text: lexer, parser and remove_backticks) *)
 Theorem C19_backticks :
-  forall n, string_forallb is_bt_char n = true -> parse_string (String "`"%char (n ++ "`")%string) = Ok (EVar n).
+  forall n, string_forallb is_bt_char n = true ->
+            parse_string (String "`"%char (n ++ "`")%string) = Ok (EVar n).
 Proof. exact backticks. Qed.
 Print Assumptions C19_backticks.
 
